@@ -7,7 +7,7 @@
 (* the event violates.  Verdicts are total: a failing event is printed as    *)
 (* <<"FAIL", id, {clauses}>> and the run continues; <<"DONE", n>> proves      *)
 (* every event was consumed.                                                 *)
-EXTENDS Util, FA, Regex, CFG, PDA, TM, JFA, JRE, JCFG, JPDA, JTM, JENUM, JWIT, JTXT, JPARSE, JCHK, JPURE, JTRACE, JEXTRA, Json, IOUtils
+EXTENDS Util, FA, Regex, CFG, PDA, TM, JFA, JRE, JCFG, JPDA, JTM, JENUM, JWIT, JTXT, JPARSE, JCHK, JPURE, JTRACE, JEXTRA, JNB, Json, IOUtils
 
 Events == ndJsonDeserialize(IOEnv.EVENTS)
 
@@ -45,6 +45,9 @@ Fails(e) ==
     [] e.op = "is_push_pop"   -> JPushPop(e)
     [] e.op = "fresh"         -> JFresh(e)
     [] e.op = "idgen"         -> JIdGen(e)
+    [] e.op = "nb_language"   -> JNbLanguage(e)
+    [] e.op = "nb_accepts"    -> JNbAccepts(e)
+    [] e.op = "nb_count"      -> JNbCount(e)
     [] e.op = "ec_trace"      -> JEcTrace(e)
     [] e.op = "hop_trace"     -> JHopTrace(e)
     [] e.op = "iso_trace"     -> JIsoTrace(e)
